@@ -129,6 +129,36 @@ func genPorts(r *common.Rng) (ports []int, items []PortItem, mode int) {
 	return
 }
 
+var rawMalformed = []string{",", "80,,443", "80, 443", " 80", "80 ", "+80", "-80", "80-", "80-80", "90-80", "0", "0-5", "65536", "1-65536",
+	"1-2-3", "0x50", "80;443", "a", "1e2", "99999999999999999999", "443,0", "1-5,7-6", "10-20,", ",5", "5,,", "\t5", "5\r", "00", "1_0"}
+
+// rawify rewrites a well-formed item list as written text in an unusual but equivalent way: leading zeros, a trailing
+// comma, a port written as part of an overlapping range, or (malformed = true) inserts a malformed piece somewhere.
+func rawify(r *common.Rng, items []PortItem, malformed bool) *string {
+	pieces := make([]string, len(items))
+	for i, it := range items {
+		z := ""
+		if r.Chance(1, 3) {
+			z = common.Pick(r, []string{"0", "00", "000000"})
+		}
+		if it.IsRange {
+			pieces[i] = fmt.Sprintf("%s%d-%s%d", z, it.From, z, it.To)
+		} else {
+			pieces[i] = fmt.Sprintf("%s%d", z, it.From)
+		}
+	}
+	if malformed {
+		bad := common.Pick(r, rawMalformed)
+		k := r.Intn(len(pieces) + 1)
+		pieces = append(pieces[:k], append([]string{bad}, pieces[k:]...)...)
+	}
+	s := strings.Join(pieces, ",")
+	if !malformed && len(pieces) > 0 && r.Chance(1, 4) {
+		s += ","
+	}
+	return &s
+}
+
 func genDomainList(r *common.Rng) []string {
 	// around MaxLinearDomains (16): linear matcher below, map matcher above
 	n := common.Pick(r, []int{1, 1, 2, 3, 15, 16, 17, 18, 30})
@@ -184,6 +214,9 @@ func genRoute(r *common.Rng, c *Case, idx int, invalid bool) RouteSpec {
 			rt.FromPorts, rt.FromRanges, _ = genPorts(r)
 		}
 		rt.InvFromPorts = r.Chance(1, 3)
+		if len(rt.FromRanges) > 0 && r.Chance(1, 4) && !invalidPorts(rt.FromPorts, rt.FromRanges) {
+			rt.FromRangesRaw = rawify(r, rt.FromRanges, false)
+		}
 	}
 	if present(1, 3) {
 		if r.Bool() {
@@ -203,6 +236,9 @@ func genRoute(r *common.Rng, c *Case, idx int, invalid bool) RouteSpec {
 			rt.ToPorts, rt.ToRanges, _ = genPorts(r)
 		}
 		rt.InvToPorts = r.Chance(1, 3)
+		if len(rt.ToRanges) > 0 && r.Chance(1, 4) && !invalidPorts(rt.ToPorts, rt.ToRanges) {
+			rt.ToRangesRaw = rawify(r, rt.ToRanges, false)
+		}
 	}
 	hasResolvers := len(c.Resolvers) > 0
 	if present(2, 5) {
@@ -240,10 +276,18 @@ func genRoute(r *common.Rng, c *Case, idx int, invalid bool) RouteSpec {
 	} else if r.Chance(1, 10) {
 		rt.DisableResolve = true
 	}
-	if hasResolvers && r.Chance(1, 4) {
-		rt.Resolver = common.Pick(r, c.Resolvers)
+	if hasResolvers && r.Chance(1, 4) && len(c.resolverMapNames()) > 0 {
+		rt.Resolver = common.Pick(r, c.resolverMapNames())
 	}
-	if invalid && r.Chance(1, 3) {
+	if invalid && r.Chance(1, 4) {
+		// a malformed piece in the written port-range string
+		items := []PortItem{{From: 80}, {From: 8000, To: 8100, IsRange: true}}[:r.Range(0, 2)]
+		if r.Bool() {
+			rt.FromPorts, rt.FromRanges, rt.FromRangesRaw = nil, nil, rawify(r, items, true)
+		} else {
+			rt.ToPorts, rt.ToRanges, rt.ToRangesRaw = nil, nil, rawify(r, items, true)
+		}
+	} else if invalid && r.Chance(1, 3) {
 		// only the port lists are wrong (zero port, empty or inverted range, every port)
 		for {
 			ports, items, _ := genPorts(r)
@@ -424,7 +468,13 @@ func genPfxSet(r *common.Rng) []string {
 
 func genResolve(r *common.Rng, c *Case) {
 	c.Resolve = map[string]map[string]string{}
-	for _, n := range c.Resolvers {
+	names := append([]string(nil), c.Resolvers...)
+	for _, n := range c.resolverMapNames() {
+		if !contains(names, n) {
+			names = append(names, n)
+		}
+	}
+	for _, n := range names {
 		t := map[string]string{}
 		style := r.Intn(4) // 0 mostly answers, 1 mixed, 2 mostly ErrLookup, 3 mostly failures
 		for _, d := range append(append([]string(nil), domainUniverse...), labelUniverse...) {
@@ -478,9 +528,9 @@ func genResolve(r *common.Rng, c *Case) {
 
 // boundary ports of a route's port conditions (edges ±1)
 func portEdges(rt RouteSpec, from bool) []int {
-	ports, items := rt.ToPorts, rt.ToRanges
+	ports, items := rt.ToPorts, rt.toItems()
 	if from {
-		ports, items = rt.FromPorts, rt.FromRanges
+		ports, items = rt.FromPorts, rt.fromItems()
 	}
 	var es []int
 	add := func(p int) {
@@ -580,6 +630,17 @@ func genCase(r *common.Rng, nreq int) Case {
 	}
 	c.Servers = []string{"s0", "s1", "s2", "s3"}[:r.Range(1, 4)]
 	c.Resolvers = []string{"dns1", "dns2", "dns3"}[:common.Pick(r, []int{0, 1, 1, 2, 2, 3})]
+	if len(c.Resolvers) > 0 && r.Chance(1, 6) {
+		// resolverMap differs from the slice: a name only in the map, and/or one only in the slice
+		m := append([]string(nil), c.Resolvers...)
+		if r.Bool() {
+			m = m[1:]
+		}
+		if r.Bool() {
+			m = append(m, "dnsX")
+		}
+		c.ResolverMap = m
+	}
 	genResolve(r, &c)
 	c.DomSets = subset(r, poolDomSetNames, 0, 3)
 	c.PfxSets = subset(r, poolPfxSetNames, 0, 2)
